@@ -376,3 +376,52 @@ func VerifRun_C19ws() {
 		}
 	}
 }
+
+// C19-c: a file that contributes more symbols than the per-file limit of the workspace-symbol collection
+// (a large data table plus a few functions): an exact-name query for each function still returns an entry
+// at its declaration. The number of filler members is solver-chosen around the limit.
+func VerifRun_C19big() {
+	root := verifVFSRoot()
+	c08workspaceRoot(root)
+	n := []int{150, 199, 200, 201, 260}[verifConcretize(verifRange("filler", 0, 4))]
+	src := "Codes = {\n"
+	for i := 0; i < n; i++ {
+		src += " e" + itoa19(i) + " = " + itoa19(i) + ",\n"
+	}
+	src += "}\nlocal function fmtText(c) return c end\nfunction publishAll() end\nlocal R = {}\nfunction R.publish() end\n"
+	files := []string{root + "/a.lua", root + "/b.lua"}
+	p, fs := vpProject(files, [][]byte{[]byte(src), []byte("other = 1\n")})
+	var decls []c19decl
+	localNames := map[string]bool{}
+	c19collect(fs[0].FileResult.Block, 0, localNames, &decls)
+	qi := verifConcretize(verifRange("query", 0, 2))
+	q := []string{"fmtText", "publishAll", "publish"}[qi]
+	verifReach("query")
+	got := p.FindWorkspaceAllSymbol(q)
+	ok := false
+	for _, d := range decls {
+		if d.short != q {
+			continue
+		}
+		for i := range got {
+			if got[i].FileName == files[0] && c19contains(got[i].Loc, d.loc) && c19contains(d.loc, got[i].Loc) {
+				ok = true
+			}
+		}
+	}
+	if !ok {
+		verifViolation("", "a workspace-symbol query for the exact name of a function declared in a file with many symbols returns no entry located at its declaration")
+	}
+}
+
+func itoa19(n int) string {
+	if n == 0 {
+		return "0"
+	}
+	s := ""
+	for n > 0 {
+		s = string([]byte{byte('0' + n%10)}) + s
+		n /= 10
+	}
+	return s
+}
